@@ -31,7 +31,7 @@ func CreatePropellerUnits(
 		return nil, fmt.Errorf("encoding the message: %w", err)
 	}
 
-	merkleRoot, merkleTree := merkle.New(encodedMessage)
+	merkleRoot, merkleTree := merkle.New(shardLeaves(encodedMessage))
 	messageRoot := MessageRoot(merkleRoot)
 
 	signature, err := SignMessage(privKey, &messageRoot, committeeID, nonce)
@@ -51,9 +51,20 @@ func CreatePropellerUnits(
 			// todo(rdr): assigning one shard per unit until multi shard algo per unit
 			//            is clear to me.
 			ShardData: []Shard{shard},
+			Nonce:     nonce,
 		}
 	}
 	return units, nil
+}
+
+// shardLeaves returns the Merkle leaves of the given shards: the proto encoding of the shard
+// data each unit carries, which is what UnitValidator verifies inclusion proofs against.
+func shardLeaves(shards [][]byte) [][]byte {
+	leaves := make([][]byte, len(shards))
+	for i, shard := range shards {
+		leaves[i] = ShardData{shard}.MarshalProto()
+	}
+	return leaves
 }
 
 // ConstructMessageFromUnits receives Propeller units, recovers any missing data and returns
@@ -94,7 +105,7 @@ func ConstructMessageFromUnits(
 		}
 	}
 
-	merkleRoot, merkleTree := merkle.New(shards)
+	merkleRoot, merkleTree := merkle.New(shardLeaves(shards))
 
 	// units[0] is nil whenever shard 0 is among the missing ones: take the root from any present unit.
 	var messageRoot MessageRoot
